@@ -46,7 +46,7 @@ RankOf(zr, n) == (CHOOSE i \in 1..Len(zr.mem) : zr.mem[i] = n) - 1
 \* (zr.ltk = the keys, zr.ltv = the pairs of links, aligned)
 LinkTable(zr) ==
   LET K == { zr.ltk[i] : i \in 1..Len(zr.ltk) } IN
-  [k \in K |-> zr.ltv[CHOOSE i \in 1..Len(zr.ltk) : zr.ltk[i] = k]]
+  TLCEval([k \in K |-> zr.ltv[CHOOSE i \in 1..Len(zr.ltk) : zr.ltk[i] = k]])
 Aux(P) == [ edges |-> [z \in 1..Len(P.nz) |-> IF P.nz[z].kind \in RoutedKinds THEN SpEdges(P.nz[z], P.lk) ELSE {}],
             dist  |-> [z \in 1..Len(P.nz) |-> IF P.nz[z].kind \in SpKinds THEN SpDist(P.nz[z], P.lk) ELSE <<>>],
             lt    |-> [z \in 1..Len(P.nz) |-> IF P.nz[z].kind \in {"torus", "fattree", "dragonfly"}
